@@ -40,6 +40,34 @@ def printNg (ng : Model.NameGen) : String :=
 
 def lst (s : String) : List String := if s == "-" then [] else splitList s
 
+def parseTables (s : String) : Option Model.OpTables :=
+  match s.splitOn ";" with
+  | [c, u, t] => some { cond := lst c, uncond := lst u, term := lst t }
+  | _ => none
+
+def parseIns (s : String) : Option (List Model.Ins) :=
+  (lst s).mapM fun p => match p.splitOn ":" with
+    | [o, op, a, t] => do
+      let o ← o.toNat?
+      let a ← a.toNat?
+      pure { off := o, op := op, arg := a, isTarget := t == "1" }
+    | _ => none
+
+def parseTIns (s : String) : Option (List Model.TIns) :=
+  (lst s).mapM fun p => match p.splitOn ":" with
+    | [o, sz, c, t] => do
+      let o ← o.toNat?
+      let sz ← sz.toNat?
+      let t ← t.toNat?
+      let c ← match c with
+        | "c" => some Model.Cls.cond
+        | "u" => some Model.Cls.uncond
+        | "r" => some Model.Cls.ret
+        | "o" => some Model.Cls.other
+        | _ => none
+      pure { off := o, size := sz, cls := c, target := t }
+    | _ => none
+
 def cj (xs : List String) : String := if xs.isEmpty then "-" else commaJoin xs
 
 def showM {α : Type} (r : Model.M α) (f : α → String) : String :=
@@ -144,6 +172,13 @@ def step (st : DState) (line : String) : DState × String :=
     (st, s!"ok {cj (Spec.exitingRef (st.h.level c) (lst sub))} {cj (Spec.exitsRef (st.h.level c) (lst sub))}")
   | ["SPEC", "iter", c, out] => (st, bit (Spec.iterSpecOK st.h c (lst out)))
   | ["SPEC", "view", c, out] => (st, bit (Spec.viewSpecOK st.h c (lst out)))
+  | ["BC", tabs, ins] => match parseTables tabs, parseIns ins with
+    | some T, some is => (st, showM (Model.buildBlocks (Model.fromBytecode T is)) printHier)
+    | _, _ => (st, "bad-request")
+  | ["BCSPEC", ins] => match parseTIns ins with
+    | some is => (st, "ok " ++ ";".intercalate ((Model.specBlocks is).map fun b =>
+        s!"{b.1}:{"+".intercalate (b.2.1.map toString)}:{"+".intercalate (b.2.2.map toString)}"))
+    | none => (st, "bad-request")
   | ["IT", "iter", c] => (st, showM (Model.iterAll st.h (st.h.length + 2) c) cj)
   | ["IT", "view", c] => (st, showM (Model.viewIter st.h c) cj)
   | ["S", h, ng] => match parseHier h, parseNg ng with
